@@ -283,7 +283,7 @@ def switches : List String → Nat
   | _ => 0
 
 def judgeIso (lines : Array String) : Verdict := Id.run do
-  let mut cfg : Option (String × Nat × Nat × Bool × List String) := none
+  let mut cfg : Option (String × Nat × Nat × String × List String) := none
   let mut pts : List (Pt × GroupID) := []
   let mut gps : List (GPoint × String) := []   -- (point as grouping sees it, its structured key)
   let mut full : Option (List (ObsMsg × String)) := none
@@ -294,12 +294,14 @@ def judgeIso (lines : Array String) : Verdict := Id.run do
     | ["node", kind, p1, p2, b, dims] =>
       let some p1 := p1.toNat? | return .badop l
       let some p2 := p2.toNat? | return .badop l
-      let some b := b01? b | return .badop l
+      if !(["0", "1", "2"].contains b) then return .badop l
       let some dims := parseList dims | return .badop l
       cfg := some (kind, p1, p2, b, sortStrings dims)
     | ["pt", name, tags, fields, time] =>
-      let some (_, _, _, b, dims) := cfg | return .badop l
+      let some (_, _, _, mode, dims) := cfg | return .badop l
       let some name := unesc name | return .badop l
+      -- mode 2: mixed by-name flags after a union (measurement cpu grouped by measurement, m not)
+      let b := mode == "1" || (mode == "2" && name == "cpu")
       let some tags := parseTags tags | return .badop l
       let some v := parseV fields | return .badop l
       let some time := time.toInt? | return .badop l
@@ -317,7 +319,7 @@ def judgeIso (lines : Array String) : Verdict := Id.run do
       | .ok ms => solo := solo ++ [(g, ms.map (·.1))]
       | .error st => return .specfail "isolation" s!"solo run of {g} status {st}"
     | _ => return .badop l
-  let some (kind, p1, p2, _, _) := cfg | return .badop "no node line"
+  let some (kind, p1, p2, mode, _) := cfg | return .badop "no node line"
   let some fullR := full | return .badop "no full line"
   let keys := pts.map (·.1.key)
   if distinctKeys keys != solo.map (·.1) then
@@ -325,7 +327,8 @@ def judgeIso (lines : Array String) : Verdict := Id.run do
   -- the property, on what the implementation emitted
   let fullMsgs := fullR.map (·.1)
   let ptsOnly := pts.map (·.1)
-  let modelFull : Option (List String) := match modelKind? kind p1 p2 with
+  -- behind a union the arrival order at the node is the union's, not the input's: no prediction of the full output
+  let modelFull : Option (List String) := if mode == "2" then none else match modelKind? kind p1 p2 with
     | some mk => if modelApplies mk ptsOnly then some (runModel mk (pts.map (fun pg => Item.point pg.2 pg.1))) else none
     | none => none
   if !isolationHolds fullMsgs solo then
@@ -350,6 +353,7 @@ def judgeIso (lines : Array String) : Verdict := Id.run do
   -- the tie
   let mut brs : List String := [kind]
   if (distinctKeys keys).length ≥ 3 then brs := addBr brs "groups>=3"
+  if mode == "2" then brs := addBr brs "mixed-byname-union"
   if gps.any (fun pk => pk.1.dims.eraseDups.length < pk.1.dims.length) then brs := addBr brs "duplicate-dimension"
   if switches keys ≥ 3 then brs := addBr brs "interleaved"
   if (distinctKeys (pts.map (·.2))).length < (distinctKeys keys).length then brs := addBr brs "id-collision-in-run"
